@@ -151,4 +151,8 @@ example :
     (Dec.pushAll (Dec.fresh none) [0x02, 0x00, 0x00, 0x00]).2 := by
   decide +kernel
 
+/-- `Decoder::from_buf` with any (possibly non-empty) buffer is a newly constructed decoder: the
+    caller's stale bytes never reach a payload. -/
+theorem fromBuf_eq_fresh (b : Buf) : Dec.fromBuf b = Dec.fresh b.cap := rfl
+
 end Sml.C14
